@@ -35,17 +35,19 @@ def build(mt):
     try:
         enc = wrec.Enc()
         lines = not mt['reuse']
-        w = wrec.run_wave(cls, c, d, mt['lanes'], mt['caps'], mt['inw'], reuse=mt['reuse'], strip=mt['strip'])
+        # history: stimulus through s[0..2] + s_to_c() on a simulator whose input slots held hand-written waveforms before
+        hist = dict(via_s=True, warmup=mt['warm']) if mt.get('via_s') else {}
+        w = wrec.run_wave(cls, c, d, mt['lanes'], mt['caps'], mt['inw'], reuse=mt['reuse'], strip=mt['strip'], **hist)
         rec.update(wrec.observe(w, c, mt['lanes'], enc, lines=lines))
         sh = [[shift_img(im, mt['shift']) for im in row] for row in mt['inw']]
-        w2 = wrec.run_wave(cls, c, d, mt['lanes'], mt['caps'], sh, reuse=mt['reuse'], strip=mt['strip'])
+        w2 = wrec.run_wave(cls, c, d, mt['lanes'], mt['caps'], sh, reuse=mt['reuse'], strip=mt['strip'], **hist)
         o2 = wrec.observe(w2, c, mt['lanes'], enc, lines=lines)
         rec['sh'] = dict(d=mt['shift'], waves=o2['waves'], port=o2['port'])
         sc = [[scale_img(im, mt['scale']) for im in row] for row in mt['inw']]
         # the scaled run may in addition be scaled DOWN by a power of two (units of 1/sden, exact in floating point)
         sden = mt.get('sden', 1)
         sc = [[[v / sden if -wrec.INF < v < wrec.INF else v for v in im] for im in row] for row in sc]
-        w3 = wrec.run_wave(cls, c, d * np.float32(mt['scale'] / sden), mt['lanes'], mt['caps'], sc, reuse=mt['reuse'], strip=mt['strip'])
+        w3 = wrec.run_wave(cls, c, d * np.float32(mt['scale'] / sden), mt['lanes'], mt['caps'], sc, reuse=mt['reuse'], strip=mt['strip'], **hist)
         enc3 = wrec.Enc(mul=float(sden))
         o3 = wrec.observe(w3, c, mt['lanes'], enc3, lines=lines)
         rec['sc'] = dict(f=mt['scale'], den=sden, waves=o3['waves'], port=o3['port'])
@@ -72,8 +74,10 @@ def make(ck, rnd, n):
                 for l in f.ins:
                     if l is not None:
                         d[:, l.index] = 0
+        via_s = rnd.random() < 0.25
         mt = dict(circuit=gen.circuit_state(c), lanes=lanes, delays=d.tolist(), poldep=poldep, caps=rnd.choice([8, 16, 16]),
-                  inw=wrec.rand_inputs(rnd, c, lanes, multi=True, tmax=12), cls=rnd.choice(['WaveSim', 'WaveSimCuda']),
+                  inw=wrec.rand_inputs(rnd, c, lanes, multi=not via_s, tmax=12), via_s=via_s, warm=wrec.rand_inputs(rnd, c, lanes, multi=True, tmax=12) if via_s else None,
+                  cls=rnd.choice(['WaveSim', 'WaveSimCuda']),
                   reuse=reuse, strip=strip, shift=rnd.choice([1, 16, 100, 1000]), scale=rnd.choice([2, 4, 8]), sden=rnd.choice([1, 1, 2 ** 10, 2 ** 20, 2 ** 24]))
         mt['desc'] = '%s poldep=%s reuse=%s strip=%s shift=%d scale=%d/%d' % (mt['cls'], poldep, reuse, strip, mt['shift'], mt['scale'], mt['sden'])
         recs.append(build(mt))
